@@ -2,7 +2,7 @@
 import os, json, glob
 from explore import Job, run_jobs, generic_search, generic_replay, Disagreement, impl_step, _masked_equal
 import c05lib
-from c05lib import AFifoInst, BusSyncInst, BusSync1Inst, PulseSyncInst, AxiLiteCdcInst
+from c05lib import AFifoInst, BusSyncInst, BusSync1Inst, PulseSyncInst, AxiLiteCdcInst, AFifoRstInst
 from litex.soc.interconnect import stream
 
 L1 = [("data", 1)]
@@ -59,6 +59,13 @@ def jobs(tier):
     B(lambda: AFifoInst("uart tx fifo (16, sys->phy)", _uart_fifo(16, "sys", "phy"), 4, cd_w="sys", cd_r="phy"))
     B(lambda: AFifoInst("uart rx fifo (16, phy->sys)", _uart_fifo(16, "phy", "sys"), 4, cd_w="phy", cd_r="sys"))
     B(lambda: AxiLiteCdcInst("AXILiteClockDomainCrossing(sys->phy)"), cycles=1200)
+    # common-reset variant: reset pulses of either domain; long pulses (flush) with the scoreboard armed,
+    # arbitrary short pulses for model/code agreement only
+    B(lambda: AFifoRstInst("ClockDomainCrossing(8,common_rst)/8b/long resets", L8, 3))
+    B(lambda: AFifoRstInst("ClockDomainCrossing(16,buffered,common_rst)/8b/long resets", L8, 4, buffered=True))
+    B(lambda: AFifoRstInst("ClockDomainCrossing(8,common_rst)/8b/short resets", L8, 3, long_resets=False))
+    B(lambda: AFifoRstInst("ClockDomainCrossing(8,buffered,common_rst)/8b/short resets", L8, 3, buffered=True,
+                           long_resets=False))
     # BusSynchronizer: clocks with drift ratio <= 3 (the property's quantifier), coherence monitor armed
     B(lambda: BusSyncInst("BusSynchronizer(8,t=128)/R<=3", 8, 128, ratio_max=3), cycles=20000)
     B(lambda: BusSyncInst("BusSynchronizer(5,t=19)/R<=3", 5, 19, ratio_max=3), cycles=20000)
@@ -70,6 +77,8 @@ def jobs(tier):
 def _corpus_instance(spec):
     if spec["kind"] == "bussync":
         return BusSyncInst(spec["name"], spec["width"], spec["timeout"])
+    if spec["kind"] == "afifo_rst":
+        return AFifoRstInst(spec["name"], [("data", spec["data_width"])], spec["k"], buffered=spec["buffered"])
     raise ValueError(spec)
 
 
